@@ -1869,6 +1869,7 @@ func g23BreakOnlyWithoutProgress(r *Repo, rep *Report) {
 	})
 	rep.analysed("reload_loop_breaks", n)
 	g23HeaderCondition(r, rep, fi)
+	g23ProgressStateLocal(r, rep, fi)
 	if good == 0 && loopPos.IsValid() {
 		rep.fail(Finding{Rule: "G23", Key: "G23|unresolved|no-progress-exit", Where: []string{r.pos(loopPos)},
 			Msg: "the reload loop of generatePackage has no exit that is taken exactly when a pass leaves the same calls undefined as the pass before: a call that never becomes typeable keeps goderive rewriting and reloading for ever"})
@@ -2111,4 +2112,105 @@ func g5LocalIs(info *types.Info, fi *FuncInfo, e ast.Expr, text string) bool {
 		return true
 	})
 	return defs == 1 && match
+}
+
+
+// g23ProgressStateLocal — what a pass left undefined is compared with what the pass before left undefined *for this package*. The
+// record of the pass before must therefore live in generatePackage's own activation (a local variable): a field of the
+// program (or any other value that outlives the call) still holds the calls of the package that was generated before this
+// one, so the first pass of a package can look like a pass without progress (or the other way round) depending on which other
+// packages were named in the same invocation, and in which order.
+func g23ProgressStateLocal(r *Repo, rep *Report, fi *FuncInfo) {
+	info := fi.Pkg.TypesInfo
+	uvars := undefDerived(info, fi.Decl.Body)
+	// fields (by their text) that are assigned a rendering of the undefined calls
+	ufields := map[string]bool{}
+	mentionsU := func(e ast.Expr) bool {
+		found := false
+		ast.Inspect(e, func(n ast.Node) bool {
+			switch x := n.(type) {
+			case *ast.SelectorExpr:
+				if x.Sel.Name == "undefined" {
+					found = true
+				}
+			case *ast.Ident:
+				if uvars[info.Uses[x]] {
+					found = true
+				}
+			}
+			return true
+		})
+		return found
+	}
+	outlives := func(e ast.Expr) bool {
+		sel, ok := ast.Unparen(e).(*ast.SelectorExpr)
+		if !ok {
+			return false
+		}
+		if s := info.Selections[sel]; s == nil || s.Kind() != types.FieldVal {
+			return false
+		}
+		root := ast.Unparen(sel.X)
+		for {
+			if s2, ok := root.(*ast.SelectorExpr); ok {
+				root = ast.Unparen(s2.X)
+				continue
+			}
+			break
+		}
+		id, ok := root.(*ast.Ident)
+		if !ok {
+			return false
+		}
+		v, ok := info.Uses[id].(*types.Var)
+		if !ok {
+			return false
+		}
+		// the receiver or a parameter of generatePackage, or a package-level variable: its fields outlive the call; a struct that
+		// was created in this activation does not
+		if v.Parent() == v.Pkg().Scope() {
+			return true
+		}
+		sig := fi.Fn.Type().(*types.Signature)
+		if sig.Recv() == v {
+			return true
+		}
+		for i := 0; i < sig.Params().Len(); i++ {
+			if sig.Params().At(i) == v {
+				return true
+			}
+		}
+		return false
+	}
+	ast.Inspect(fi.Decl.Body, func(n ast.Node) bool {
+		as, ok := n.(*ast.AssignStmt)
+		if !ok || len(as.Lhs) != len(as.Rhs) {
+			return true
+		}
+		for i, l := range as.Lhs {
+			if outlives(l) && mentionsU(as.Rhs[i]) {
+				ufields[exprStr(l)] = true
+			}
+		}
+		return true
+	})
+	bad := false
+	ast.Inspect(fi.Decl.Body, func(n ast.Node) bool {
+		be, ok := n.(*ast.BinaryExpr)
+		if !ok || (be.Op != token.EQL && be.Op != token.NEQ) {
+			return true
+		}
+		for _, pair := range [][2]ast.Expr{{be.X, be.Y}, {be.Y, be.X}} {
+			if outlives(pair[0]) && ufields[exprStr(pair[0])] && mentionsU(pair[1]) {
+				bad = true
+				rep.fail(Finding{Rule: "G23", Key: "G23|progress|state-outlives-package", Where: []string{r.pos(be.Pos())},
+					Msg: "generatePackage compares what this pass left undefined with " + exprStr(pair[0]) + ", which outlives the package (a field of the program): when this package is generated it still holds the calls of the package generated before it, so whether the first pass counts as progress — and with it whether the run ends in `cannot generate` or goes on — depends on which other packages are named in the same invocation and in which order"})
+				return true
+			}
+		}
+		return true
+	})
+	if !bad {
+		rep.pass("G23")
+	}
 }
